@@ -706,6 +706,14 @@ def enumerate_cases(tier, seed):
                 if e[0] == "mod" and e[1] == "alias":
                     cases.append({"mode": "pairs_all", "variant": v,
                                   "first": i})
+        # partial disorder (an atom in the second conformer only, parts
+        # labelled C/D) on every record of base C, paired with every other
+        # edit - base C holds a ligand of several atoms
+        v = ["C", "none", []]
+        eds = single_edits(build_lines(v[0], v[1], tuple(v[2])))
+        for i, e in enumerate(eds):
+            if e[0] == "mod" and e[1] in ("alt_only_b", "alt_cd"):
+                cases.append({"mode": "pairs_all", "variant": v, "first": i})
     if tier == "thorough":
         v = ["A", "none", []]
         lines = build_lines("A", "none", ())
